@@ -168,6 +168,39 @@ pub fn four_gibibase_run(k: usize) -> Option<(String, String)> {
         }
         (count, first, last.into_iter().collect::<Vec<_>>(), bad_pair)
     });
+    // the same buffer, cut to 2^31 + 70 bases with one ambiguous byte at index 5: more than 2^31 bases behind it
+    if let Ok((count, ..)) = &r {
+        if *count == (n - k + 1) as u64 {
+            let cut = (1usize << 31) + 70;
+            let saved = s[5];
+            s[5] = b'N';
+            let r2 = guard(|| {
+                let mut count: u64 = 0;
+                let mut first: Option<(u64, u64)> = None;
+                let mut last: Option<(u64, u64)> = None;
+                for it in KmerGenerator::new(&s[..cut], k) {
+                    if first.is_none() {
+                        first = Some(it);
+                    }
+                    last = Some(it);
+                    count += 1;
+                }
+                (count, first, last)
+            });
+            s[5] = saved;
+            let want = (cut - 6 - k + 1) as u64;
+            let w0 = model::windows(&s[6..6 + k], k)[0];
+            let w1 = model::windows(&s[cut - k..cut], k)[0];
+            match r2 {
+                Err(p) => return Some(("panic".into(), format!("KmerGenerator over one record of 2^31 + 70 bases with an ambiguous byte at index 5, k={k}: panicked: {p}"))),
+                Ok((c, f, l)) => {
+                    if c != want || f != Some((w0.1 as u64, w0.2 as u64)) || l != Some((w1.1 as u64, w1.2 as u64)) {
+                        return Some(("item-count".into(), format!("KmerGenerator over one record of 2^31 + 70 bases with an ambiguous byte at index 5, k={k}: {c} pairs (expected {want}), first {:?} (expected codes {} {}), last {:?} (expected {} {})", f, w0.1, w0.2, l, w1.1, w1.2)));
+                    }
+                }
+            }
+        }
+    }
     match r {
         Err(p) => Some(("panic".into(), format!("KmerGenerator over one record of 2^32 + 1000 unambiguous bases, k={k}: panicked: {p}"))),
         Ok((count, first, last, bad_pair)) => {
@@ -939,7 +972,7 @@ pub fn c09_case(ctx: &mut Ctx, family: &str, seq: &[u8], w: usize, m: usize) -> 
     ctx.journal
         .note(|| format!("C09 {} seq={} w={} m={}", family, hex(seq), w, m));
     ctx.rep.evaluations += 1;
-    let exp = if w - m.min(w) >= 2048 { model::runs_wide(seq, w, m) } else { model::runs(seq, w, m) };
+    let exp = if w - m.min(w) >= 200 && seq.len() > 5000 { model::runs_wide(seq, w, m) } else { model::runs(seq, w, m) };
     let got = guard(|| MinimiserGenerator::new(seq, w, m).collect::<Vec<(u64, usize, usize)>>());
     let (key, what) = match &got {
         Err(p) => ("panic".to_string(), format!("panicked: {}", p)),
@@ -1317,11 +1350,62 @@ pub fn minimiser_spaces(ctx: &mut Ctx, which: u32) {
                 }
             }
         }
+        // rings of a few hundred to a few thousand m-mers (every remainder modulo 8 around 2^8, then the powers of two to
+        // 2^12, one less, one more), on several texts of 20 000 bases: the minimiser leaves the window dozens of times per text
+        {
+            let mut ring_sizes: Vec<usize> = (250..=265).collect();
+            ring_sizes.extend([300usize, 511, 512, 513, 701, 1023, 1024, 1025, 2047, 2048, 2049, 4095, 4096, 4097]);
+            let texts: Vec<Vec<u8>> = (0..4u64)
+                .map(|t| long_input(25_000, 900 + t).iter().map(|&b| if b"ACGT".contains(&b) { b } else { b"ACGT"[(b % 4) as usize] }).collect())
+                .collect();
+            for slots in ring_sizes {
+                for m in [7usize, 15, 28] {
+                    let w = slots + m - 1;
+                    for t in &texts {
+                        if w <= wmax && sh.mine() {
+                            run(ctx, "medium-ring", &t[..w + 20_000], w, m);
+                            n_long += 1;
+                            ctx.rep.nontrivial += 1;
+                        }
+                    }
+                }
+            }
+        }
         // the same with a gap of ambiguous bytes inside
         let mut gapped = clean[..300_000].to_vec();
         gapped[150_000] = b'N';
         if sh.mine() {
             run(ctx, "wide-window", &gapped, 65_546, 11);
+        }
+    }
+    // a stretch of one base, as long as the minimiser, the window, a little more, embedded between other bases (every
+    // ordered pair of neighbour base and stretch base): shortcuts for low-complexity stretches meet their boundary here
+    for w in [5usize, 16, 30, 31, 32, 40, 91] {
+        if w > wmax {
+            continue;
+        }
+        for m in [1usize, 10.min(w), (w - 1).min(31), w.min(31)] {
+            if m == 0 {
+                continue;
+            }
+            for &x in b"ACGT" {
+                for &y in b"ACGT" {
+                    if x == y || !sh.mine() {
+                        continue;
+                    }
+                    for len in [m, w - 1, w, w + 1, w + 9, 2 * w + 3] {
+                        let mut t = b"ACGTTGCAAG".to_vec();
+                        t.push(x);
+                        t.extend(std::iter::repeat(y).take(len));
+                        t.extend_from_slice(b"TGCAACGGTCATGCATGGCA");
+                        t.push(x);
+                        t.extend(std::iter::repeat(y).take(len));
+                        run(ctx, "embedded-stretch", &t, w, m);
+                        n_long += 1;
+                        ctx.rep.nontrivial += 1;
+                    }
+                }
+            }
         }
     }
     // one minimiser over more than 2^22 (thorough: 2^24) consecutive windows: the widths a run length or a per-run
